@@ -48,10 +48,11 @@ where
                 });
             }
 
-            if let Some(i) = graph
-                .next_edge_from(storage, current_index.index)
-                .ok()
-                .filter(|i| i.is_valid())
+            if current_index.distance != 0
+                && let Some(i) = graph
+                    .next_edge_from(storage, current_index.index)
+                    .ok()
+                    .filter(|i| i.is_valid())
             {
                 self.stack.push_front(SearchIndex {
                     index: i,
